@@ -38,6 +38,15 @@ def make_files(sb, rng, tier):
     e = sb.build("many64", many, ["a", "b"], 21, True)
     assert e.get("ok")
     files["many64"] = sb.path("many64")
+    # a file of some 170 k k-mers: every array of the serialised table (k-mers, bases, counts - one byte per count) is longer
+    # than two compression frames, so whole frames lie inside each of them. Only headers, checksums, frame boundaries and a few
+    # payload bits are damaged (every fault re-reads 1.7 MB).
+    huge = [[gen.rand_seq(rng, 100000)], []]
+    huge[1] = [huge[0][0][:30000] + gen.rand_seq(rng, 70000)]
+    sb.reset()
+    e = sb.build("huge64", huge, ["a", "b"], 21, True, threads=2)
+    assert e.get("ok")
+    files["huge64"] = sb.path("huge64")
     # multi-frame files whose LAST frame is short, so that it holds only the tail of the serialised table (the end
     # of the last field(s)): damage confined to it leaves every earlier field intact
     for name, k in (("tail64", 21), ("tail128", 35)):
@@ -122,6 +131,8 @@ def run(run, tier, seed):
         for name, path in files.items():
             if name.startswith("small"):
                 r = faults(path, "list")
+            elif name == "huge64":
+                r = faults(path, "sample", n=300 if tier == "quick" else 3000, seed=seed, last_cap=0)
             elif tier == "quick" or name == "many64":
                 # (the many-frame file is sampled in both tiers: every header / checksum bit of every frame, the last
                 # frame, and sampled payload bits and prefixes)
